@@ -115,6 +115,8 @@ theorem add_cases (st st' : St) (r : Rec) (n : String) (hL : r.rt ≠ .L) (hn : 
   · cases he
   split at he
   · split at he <;> cases he
+  split at he
+  · cases he
   rw [hn] at he
   simp only at he
   split at he
